@@ -17,7 +17,7 @@ from __future__ import annotations
 from ..absint import TOP, Evaluator, Obj, Sym, Unmodelled
 from ..geometry import NS, POSITIONS, length, running_sum_spec, valid_shift
 from ..registry import extract
-from ..seqsem import AxisDiscipline, interp_np, interp_xr, lin, pad_seq
+from ..seqsem import AxisDiscipline, LengthMismatch, interp_np, interp_xr, lin, pad_seq
 from ..xmodel import COMMON_MODELS, dimsym, make_da, make_grid
 
 EXPLANATION = (
@@ -237,8 +237,8 @@ def check(ctx):
         if not valid_shift(fr, to):
             ctx.report("R09.2", e.fi, inst, f"registers a cumsum for the impossible shift {fr}->{to}")
             continue
-        bw = (e.options.get("boundary_width") or {}).get(dn, (0, 0))
-        before = e.options.get("pad_before_func", True)
+        bw = (e.attrs.get("boundary_width") or {}).get(dn, (0, 0))
+        before = e.attrs.get("pad_before_func")
         prob = None
         try:
             for N in NS:
@@ -262,7 +262,7 @@ def check(ctx):
                         break
                 if prob:
                     break
-        except AxisDiscipline as ex:
+        except (AxisDiscipline, LengthMismatch) as ex:
             prob = str(ex)
         except Unmodelled as ex:
             ctx.unknown("R09.2", inst, str(ex))
